@@ -115,6 +115,8 @@ def lemmas(tier):
 class KDTreeStub:
     def __init__(self, y):
         self.y = y
+        self.n = core._c_or_s(y.shape_e[0])            # cKDTree attributes: number of data points / of dimensions
+        self.m = core._c_or_s(y.shape_e[1]) if y.ndim == 2 else 1
 
     def query(self, x, k=1, distance_upper_bound=None):
         c = core.C()
